@@ -194,22 +194,25 @@ def h17c(c, mode="P"):
         mbv = c.choose("min_bet_validation", [True, False])
         ckind = c.choose("client", ["simulated", "betfair"]) if kind != "BETDAQ" else "simulated"
         c.tag("kind", kind); c.tag("currency", cur)
-        fl, (sclient,), (strategy,) = cm.new_sim(client_kwargs=dict(min_bet_validation=mbv))
+        fl, (sclient,), (strategy,) = cm.new_sim(client_kwargs=dict(min_bet_validation=mbv), strategy_kwargs=dict(max_live_trade_count=10))
+        market = cm.add_market(fl, cm.book([cm.runner(1)]))
         if ckind == "betfair":
             # the account's currency comes from the exchange through the real update_account_details(); a later poll may fail
             # (API error swallowed by the client): the account is still the same account
             from betfairlightweight.exceptions import BetfairError
             polls = {"n": 0}
-            failing = c.choose("account_poll_fails_after_login", [False, True])
+            history = c.choose("account_polls", ["ok", "ok,fail", "fail,ok"])
+            failing = history != "ok"
+            bad = {"ok": (), "ok,fail": (2,), "fail,ok": (1,)}[history]
 
             def details():
                 polls["n"] += 1
-                if failing and polls["n"] > 1:
+                if polls["n"] in bad:
                     raise BetfairError("scripted")
                 return cm.NS(currency_code=cur)
 
             def funds():
-                if failing and polls["n"] > 1:
+                if polls["n"] in bad:
                     raise BetfairError("scripted")
                 return cm.NS(available_to_bet_balance=1000.0)
 
@@ -217,6 +220,14 @@ def h17c(c, mode="P"):
                                    min_bet_validation=mbv)
             client.execution = fl.simulated_execution
             client.update_account_details()
+            if history == "fail,ok":
+                # the first poll failed: an order validated in that window only knows the fall-back minimums; nothing of that may stick once
+                # the account's currency is known
+                probe = cm.mk_limit(strategy, "BACK", 2.0, 50.0, selection_id=1)
+                market.place_order(probe, client=client)
+                fl.handler_queue.clear()
+                del market.blotter._orders[probe.id]  # (the probe is not part of what follows)
+                market.blotter._live_orders.clear()
             if failing:
                 client.update_account_details()
                 c.cover("failed-account-poll")
@@ -224,7 +235,6 @@ def h17c(c, mode="P"):
             client = sclient
             client.account_details = cm.NS(currency_code=cur)
         par = currency_parameters[cur]
-        market = cm.add_market(fl, cm.book([cm.runner(1)]))
         if mode == "P":
             price = c.mills("price", 0, 1100000)
             size = c.pick("size", SIZES_K)
